@@ -252,6 +252,32 @@ def run(F, rep, tier):
             rep.bad("C08-R6", "%s:%s" % (it["name"], h), "Formatter::%s uses `%s` on its text path: elements of the node's lists can be left out of the formatted text, which then re-parses to a different tree" % (it["name"], h),
                     "src/syntax/src/formatter.rs (expanded line %d)" % it["line"])
     rep.floor("C08-R6", "emitters scanned for element dropping", n6, 100)
+    # ---- R14: the assembled text is not rewritten on the text path
+    rep.rule("C08-R14", "on the text path no emitter (nor format() itself) rewrites text that is already rendered: no replace/trim/split/lines/dedup/case-mapping of a string - "
+                        "such a pass cannot tell program text from the inside of a string literal or a comment, so it changes tokens")
+    REWRITERS = {"replace", "replacen", "replace_range", "trim", "trim_start", "trim_end", "trim_matches", "trim_start_matches", "trim_end_matches", "strip_prefix", "strip_suffix",
+                 "split", "splitn", "rsplit", "split_terminator", "split_whitespace", "split_inclusive", "lines", "dedup", "dedup_by", "dedup_by_key", "to_lowercase", "to_uppercase",
+                 "to_ascii_lowercase", "to_ascii_uppercase", "truncate", "retain", "drain", "remove", "pop", "rev", "sort", "sort_by", "sort_unstable"}
+    R14_OK = {("image", "trim_matches"): "strips the quotes of an option VALUE token and writes them back (`k: \"v\"`): token text, not rendered program text; idempotent",
+              ("paragraph_element", "split"): "SectionReference: splits the reference's own token text at '.' to compute the link id; the text written is the token itself"}
+    n14 = 0
+    for it in fm:
+        if it["name"] not in reach:
+            continue
+        nodes = []
+        text_path_nodes(it["body"], nodes)
+        n14 += 1
+        hits = sorted({n[2] for n in nodes if n[0] == "mcall" and n[2] in REWRITERS})
+        if not hits:
+            rep.ok("C08-R14", "%s:text-not-rewritten" % it["name"])
+        for h in hits:
+            if (it["name"], h) in R14_OK:
+                rep.ok("C08-R14", "%s:%s:reviewed" % (it["name"], h), sample={"method": it["name"], "construct": h, "reason": R14_OK[(it["name"], h)]})
+                continue
+            rep.bad("C08-R14", "%s:%s" % (it["name"], h), "Formatter::%s applies `%s` on its text path: rendered program text is rewritten after the node emitters produced it "
+                    "(string literals and comments inside it are rewritten too), so the formatted program re-parses to different tokens" % (it["name"], h),
+                    "src/syntax/src/formatter.rs (expanded line %d)" % it["line"])
+    rep.floor("C08-R14", "emitters scanned for text rewriting", n14, 100)
     # ---- R11: no HTML on the text path
     rep.rule("C08-R11", "text-mode emitters write no HTML: no literal on the text path of an emitter contains an HTML entity or tag (`&lt;`, `&gt;`, `<span`, `<div`, `</`): such text is not Mech source")
     from lib.emit import parse_format
